@@ -322,10 +322,15 @@ def strikeLoop (seen : List Int) (hna : Int) (now1000 : Int) : Nat → Nat → T
             { t with sentQ := t.sentQ.modify pos fun c => { c with misses := misses } } loss
       else strikeLoop seen hna now1000 fuel (pos + 1) t loss
 
-/-- `_receive_sack_chunk` without the trailing flush/transmit. `none` = ignored (old SACK). -/
+/-- A SACK is ignored when it is stale or acknowledges data which was never sent: its cumulative TSN must lie
+between the last one acknowledged and the last TSN assigned (serial order). -/
+def Tx.sackStale (t : Tx) (cum : Int) : Bool :=
+  !uint32_gte cum t.lastSacked || uint32_gt cum (tsn_minus_one t.localTsn)
+
+/-- `_receive_sack_chunk` without the trailing flush/transmit. `none` = ignored (stale SACK). -/
 def Tx.receiveSack (t : Tx) (cum : Int) (gaps : List (Nat × Nat)) (now1000 : Int) :
     Outcome (Option (Tx × List TxEv)) :=
-  if uint32_gt t.lastSacked cum then .ok none
+  if t.sackStale cum then .ok none
   else
     let t := { t with lastSacked := cum }
     let fully := decide (t.flight ≥ t.cwnd)
